@@ -284,6 +284,23 @@ def run(r):
         import traceback
         traceback.print_exc()
         r.violation({"correspondence": "could not be run", "error": repr(e)}, found_input=False, name="C12-correspondence.json")
+    # the operand text of Python 2 unicode constants is what Python 2 prints for them
+    try:
+        pyc27 = os.path.join(r.wd, "uni27.pyc")
+        rc, o, err = C.run_py(os.path.join(C.VERIF, "tools/harness/oracle_unirepr.py"), host=C.ORACLES["2.7"], impl=False, stdin=json.dumps({"out": pyc27}))
+        want = json.loads(o.split("@@JSON@@")[1])["reprs"]
+        got = C.run_impl_op("unicode_reprs", [{"file": pyc27}], modules=MODS)[0]
+        r.case(("unicode-reprs",), nontrivial=True)
+        if got != want:
+            r.violation({"component": "operand text of Python 2 unicode constants (UnicodeForPython3.__repr__)", "xdis_operands": got, "python27_reprs": want,
+                         "source": "a = u'abc'; b = u'h\\xe9llo'; c = u'uni\\xe9 \\u4e2d'; d = u\"q's\"; e = u'a\\nb\\t'; f = u'\\U0001F600 x'; g = u'back\\\\slash'  (compiled by 2.7)",
+                         "why": "the LOAD_CONST operand of a 2.7 listing is not the constant as Python 2.7 itself prints it"})
+    except SystemExit:
+        raise
+    except Exception as e:
+        import traceback
+        traceback.print_exc()
+        r.violation({"correspondence": "unicode operand check could not be run", "error": repr(e)}, found_input=False, name="C12-correspondence.json")
     r.cov["explanation"] = ("PARTIAL for the extended formats and xasm: their operand text (stack-simulated expressions, xasm labels) is not modelled; for them the check decides totality, "
                             "clean streams and, for extended / extended-bytes, that every line starts with the modelled row prefix (line column, '>>', offset, bytes, name). "
                             "Totality over 'every valid file' is explored on real compiler output only (corpus + nine installed compilers); it is an observation, not a theorem. "
